@@ -64,8 +64,15 @@ func main() {
 	for _, parts := range [][]int{{253, 20}, {9, 5}, {253, 253, 4}} {
 		r := &layers.RADIUS{Code: layers.RADIUSCodeAccessRequest, Identifier: 7, Authenticator: [16]byte{1, 2, 3, 4, 5, 6, 7, 8, 9, 10, 11, 12, 13, 14, 15, 16}}
 		r.Attributes = append(r.Attributes, attr(layers.RADIUSAttributeTypeUserName, []byte("alice")))
-		for i, n := range parts {
-			r.Attributes = append(r.Attributes, attr(layers.RADIUSAttributeTypeEAPMessage, fill(n, byte(0x40+16*i))))
+		// one well-formed EAP Response/Identity packet, cut into the parts
+		total := 0
+		for _, n := range parts {
+			total += n
+		}
+		eap := append([]byte{2, 5, byte(total >> 8), byte(total), 1}, fill(total-5, 0x41)...)
+		for _, n := range parts {
+			r.Attributes = append(r.Attributes, attr(layers.RADIUSAttributeTypeEAPMessage, eap[:n]))
+			eap = eap[n:]
 		}
 		r.Attributes = append(r.Attributes, attr(layers.RADIUSAttributeTypeMessageAuthenticator, fill(16, 0x90)))
 		emit(fmt.Sprintf("radius-eap-message-split-%v", parts), "link:1", eth(layers.EthernetTypeIPv4), ip4(layers.IPProtocolUDP), udp(40000, 1812), r)
@@ -89,7 +96,7 @@ func main() {
 	// IPv4 with two options of the same kind and TCP with two SACK blocks and a timestamp
 	i4 := ip4(layers.IPProtocolTCP)
 	i4.Options = []layers.IPv4Option{{OptionType: 7, OptionLength: 7, OptionData: []byte{4, 1, 2, 3, 4}}, {OptionType: 7, OptionLength: 7, OptionData: []byte{4, 5, 6, 7, 8}}, {OptionType: 1, OptionLength: 1}, {OptionType: 1, OptionLength: 1}}
-	tcp := &layers.TCP{SrcPort: 1000, DstPort: 2000, Seq: 5, Ack: 6, ACK: true, Window: 99, Options: []layers.TCPOption{
+	tcp := &layers.TCP{SrcPort: 50001, DstPort: 50002, Seq: 5, Ack: 6, ACK: true, Window: 99, Options: []layers.TCPOption{
 		{OptionType: layers.TCPOptionKindSACK, OptionLength: 18, OptionData: fill(16, 0x30)},
 		{OptionType: layers.TCPOptionKindTimestamps, OptionLength: 10, OptionData: fill(8, 0x50)}}}
 	emit("ipv4-two-record-route-options-tcp-two-sack-blocks", "link:1", eth(layers.EthernetTypeIPv4), i4, tcp, gopacket.Payload(fill(3, 7)))
